@@ -316,11 +316,20 @@ class Fn:
 
 def parse_mir(text):
     fns = {}
-    chunks = re.split(r'\n(?=fn )', text)
+    chunks = re.split(r'\n(?=fn |const |static |alloc\d+ \()', text)
     for chunk in chunks:
         m = re.match(r'fn ([^\n]+?)\((.*?)\) -> (.*?) \{\n', chunk)
         if not m:
-            continue
+            mc = re.match(r'(?:const|static(?: mut)?) ([^\n]+?): (.*?) = \{\n', chunk)
+            if not mc:
+                continue
+            m = re.match(r'(.*)()()', mc.group(1))
+            class _M:
+                def __init__(s, a, b, c):
+                    s.g = (None, a, b, c)
+                def group(s, i):
+                    return s.g[i]
+            m = _M(mc.group(1), '', mc.group(2))
         f = Fn()
         f.name = m.group(1).strip()
         f.locals = {}
